@@ -271,6 +271,8 @@ def _load(case):
 def run_case(case):
     if case.get("kind") == "strip":
         return check_strip(case)
+    if case.get("kind") == "findings-order":
+        return check_findings_order(case)
     if case.get("on_disk"):
         _, bad = check_plan_on_disk(case["lang"], _load(case), case["edits"], case["on_disk"], case.get("disk_encoding", "utf-8"))
         return bad
@@ -279,6 +281,8 @@ def run_case(case):
 
 
 def shrink_candidates(case):
+    if case.get("kind") == "findings-order":
+        return
     if case.get("kind") == "strip":
         for a in P.shrink_ast(case["ast"]):
             yield dict(case, ast=a)
@@ -666,6 +670,49 @@ def header_file_edits(col, lang, seed):
     col.label(f"single:header-file:{ext}")
 
 
+def check_findings_order(case):
+    """scan + findings, insert comment lines at the top of the file on disk, scan + findings again: the findings list must
+    name the same functions in the same order (equal lengths included), every line number shifted by the insertion."""
+    from vf.harness import cli, tree
+    from vf.props.c18 import parse_findings_text
+
+    lang, k = case["lang"], case["insert"]
+    lead = "#" if lang == "Python" else "//"
+    text = "".join(f"{lead} header line {i}\n" for i in range(case["lead_lines"])) + tree.flat_file(lang, case["lengths"])
+    rel = f"src/prog.{tree.EXT[lang]}"
+    listings = []
+    with tree.temp_tree({rel: text}) as root:
+        for step in range(2):
+            if step == 1:
+                (root / rel).write_text("".join(f"{lead} inserted {i}\n" for i in range(k)) + text)
+            res = cli.run_scan(root, ".")
+            if res.exc:
+                return (f"{lang}:findings-order:scan:{res.exc[0]}", res.exc[1])
+            res = cli.run_findings(root, ".", full=True)
+            if res.exc:
+                return (f"{lang}:findings-order:findings:{res.exc[0]}", res.exc[1])
+            listings.append([(name, ln) for _, name, ln in parse_findings_text(res.out)[0]])
+    if listings[0] != listings[1]:
+        return (f"{lang}:findings-order-changed", f"{k} comment lines inserted at the top: findings {listings[0]} -> {listings[1]}")
+    return None
+
+
+def findings_order_edits(col, lang):
+    n = 0
+    for lead_lines in (0, 6, 8):
+        for lengths in ([33, 33, 33], [35, 31, 35, 31], [61, 33, 61]):
+            if lang == "Python":
+                lengths = [max(2, v) for v in lengths]
+            for k in (1, 3, 5, 60, 95):
+                n += 1
+                case = {"kind": "findings-order", "lang": lang, "lead_lines": lead_lines, "lengths": lengths, "insert": k}
+                bad = check_findings_order(case)
+                if bad:
+                    col.fail(case, bad[0], bad[1])
+    col.bulk(n, n)
+    col.label("single:findings-order")
+
+
 def gen_strip(col, seed, n, lang):
     def body(v):
         rnd, size = v
@@ -686,6 +733,7 @@ def plan(tier, seed):
         jobs.append(("gen", {"seed": shard_seed(seed, ID, f"c{lang}"), "n": per, "lang": lang, "use_corpus": True}))
         jobs.append(("gen_strip", {"seed": shard_seed(seed, ID, f"s{lang}"), "n": 60 if quick else 1500, "lang": lang}))
         jobs.append(("marked_single_edits", {"lang": lang}))
+        jobs.append(("findings_order_edits", {"lang": lang}))
         if lang in ("C", "C++"):
             jobs.append(("header_file_edits", {"lang": lang, "seed": shard_seed(seed, ID, f"h{lang}")}))
     files = corpus()
